@@ -22,6 +22,13 @@ def run(repo, tier) -> Result:
     from ..manager_rules import check_epoch
 
     check_epoch("C12", res, repo)
+    # the fill reads the previous candle's saved raw close: a merge must drop the stale snapshot; and the retained real buckets are
+    # those of the unfilled manager (trimming is by timestamp only)
+    from ..driver import check_merge
+    from ..manager_rules import check_trim
+
+    check_merge("C12", res, repo)
+    check_trim("C12", res, repo)
     check_collapse("C12", res, repo, want=("R-FILLPATH",))
     res.rule("R-FILL", floor=7)
     # "the real buckets are identical to those produced without filling": every timeframe collapses the raw base candles, never another
